@@ -7,6 +7,7 @@ from onl.netdev.red_port import REDPort
 import onl.netdev.red_port as red_mod
 
 ID = 'C09'
+SHRINK_KEEP = ('red',)
 TIERS = {'quick': {'runs': 12000, 'budget_s': 30}, 'thorough': {'runs': 600000, 'budget_s': 600}}
 RULE = ('one real Port/REDPort between a harness injector and a recording sink; workloads of <=60 packets with bursts, '
         'gaps and arrivals placed exactly at predicted transmission ends; rates >=0 incl. 0; qlimit None / bytes / '
@@ -163,7 +164,7 @@ def check(w, case, port, mon):
             elif r[3] == 'mon':
                 mon_draws.append((r[1], r[2]))
         elif tag == 'ERR':
-            viol.append(('C09.7', 'the run raised %r' % (r[4],)))
+            viol.append(('C09.7/%s' % (r[4][1] if isinstance(r[4], tuple) and len(r[4]) > 1 else 'exc'), 'the run raised %r' % (r[4],)))
     if not w.quiescent:
         viol.append(('C09.7', 'the run did not reach quiescence'))
     accepted = [a for a in arr if 'out' in a]
